@@ -269,6 +269,10 @@ func ZZH_C06_OpenPackage() {
 	if zzvChoice(8) != 0 {
 		add("word/document.xml", zzhDocVariants[zzvChoice(len(zzhDocVariants))])
 	}
+	// entries with unusual names (bare directory names, near misses of the media prefix)
+	if odd := zzvChoice(6); odd > 0 {
+		add([]string{"", "word/media", "word/media/", "word/medi", "word/media/image", "word/"}[odd], "x")
+	}
 	d, err := zzhOpen(names, parts)
 	if err != nil {
 		zzvAssert(d == nil, "a failed open returns no document")
@@ -288,6 +292,19 @@ func ZZH_C06_OpenPackage() {
 	}
 	d.GetPageSettings()
 	d.AddParagraph("more")
+	// further editing of every kind that registers parts, relationships or content types
+	switch zzvChoice(5) {
+	case 0:
+		d.AddHeader(HeaderFooterTypeDefault, "h")
+	case 1:
+		d.AddImageFromData(zzhPNG, "p.png", ImageFormatPNG, 3, 2, nil)
+	case 2:
+		d.AddListItem("l", nil)
+	case 3:
+		d.AddFootnote("t", "n")
+	case 4:
+		d.SetPageMargins(10, 10, 10, 10)
+	}
 	_, err = d.ToBytes()
 	zzvAssert(err == nil, "an opened document saves")
 	zzvReach("opened")
